@@ -112,33 +112,58 @@ def run(chk, repo, tier):
             # multiplicity variable: n = self._multiple(x) / eval_token(...subtree('n')...)
             mult_vars = {n.targets[0].id for n in ast.walk(f.node) if isinstance(n, ast.Assign)
                          and isinstance(n.targets[0], ast.Name)
-                         and ('_multiple' in unparse(n.value) or "subtree('n')" in unparse(n.value))}
+                         and C04b.has_mult(repo, unparse(n.value))}
             # ... or a name unpacked from the result of a helper of the record that computes the multiplicity
             # (`child, n = self._update_theta(child, parameters[i])`)
             for a_ in ast.walk(f.node):
                 if isinstance(a_, ast.Assign) and isinstance(a_.targets[0], ast.Tuple) and isinstance(a_.value, ast.Call):
                     cn = (dotted(a_.value.func) or '').split('.')[-1]
                     h_ = cls.methods.get(cn) or mod.functions.get(cn)
-                    if h_ is not None and ('_multiple' in unparse(h_.node) or "subtree('n')" in unparse(h_.node)):
+                    if h_ is not None and C04b.has_mult(repo, unparse(h_.node)):
                         for r_ in ast.walk(h_.node):
                             if isinstance(r_, ast.Return) and isinstance(r_.value, ast.Tuple):
                                 for k_, e_ in enumerate(r_.value.elts):
                                     if isinstance(e_, ast.Name) and k_ < len(a_.targets[0].elts) \
                                             and isinstance(a_.targets[0].elts[k_], ast.Name) and any(
                                             isinstance(d_, ast.Assign) and isinstance(d_.targets[0], ast.Name)
-                                            and d_.targets[0].id == e_.id and ('_multiple' in unparse(d_.value)
-                                                                                  or "subtree('n')" in unparse(d_.value))
+                                            and d_.targets[0].id == e_.id and C04b.has_mult(repo, unparse(d_.value))
                                             for d_ in ast.walk(h_.node)):
                                         mult_vars.add(a_.targets[0].elts[k_].id)
+            zeroed = {t.id for scope in ([f.node] + ([f.parent.node] if f.parent is not None else []))
+                      for a_ in ast.walk(scope) if isinstance(a_, ast.Assign) and isinstance(a_.value, ast.Constant)
+                      and a_.value.value == 0 and not isinstance(a_.value.value, bool)
+                      for t in a_.targets if isinstance(t, ast.Name)}
+            # ... that count parameters: the counter subscripts a parameter of the function (parameters[i]), is looked up in
+            # one (i in inds) or is what the function returns (__len__)
+            scopes_ = [f.node] + ([f.parent.node] if f.parent is not None else [])
+            fparams = {a_.arg for sc_ in scopes_ for a_ in sc_.args.args} - {'self'}
+            for _ in range(3):      # locals computed from a parameter (`eta_inds = {ind for ind, _ in inds}`)
+                fparams |= {t.id for sc_ in scopes_ for a_ in ast.walk(sc_) if isinstance(a_, ast.Assign)
+                            and any(isinstance(y, ast.Name) and y.id in fparams for y in ast.walk(a_.value))
+                            for t in a_.targets if isinstance(t, ast.Name)}
+
+            def counts_parameters(v):
+                for sc_ in scopes_:
+                    for x in ast.walk(sc_):
+                        if isinstance(x, ast.Subscript) and isinstance(x.value, ast.Name) and x.value.id in fparams \
+                                and any(isinstance(y, ast.Name) and y.id == v for y in ast.walk(x.slice)):
+                            return True
+                        if isinstance(x, ast.Compare) and isinstance(x.left, ast.Name) and x.left.id == v and any(
+                                isinstance(o, (ast.In, ast.NotIn)) for o in x.ops) and any(
+                                isinstance(y, ast.Name) and y.id in fparams for c_ in x.comparators for y in ast.walk(c_)):
+                            return True
+                        if isinstance(x, ast.Return) and isinstance(x.value, ast.Name) and x.value.id == v:
+                            return True
+                return False
             idx_incs = [n for n in ast.walk(f.node) if isinstance(n, ast.AugAssign) and isinstance(n.op, ast.Add)
-                        and isinstance(n.target, ast.Name) and n.target.id in ('i', 'ind', 'index', 'tot')]
+                        and isinstance(n.target, ast.Name) and n.target.id in zeroed and counts_parameters(n.target.id)]
             if not idx_incs:
                 continue
             for inc in idx_incs:
-                by_mult = bool(names(inc.value) & mult_vars) or '_multiple' in unparse(inc.value)
+                by_mult = bool(names(inc.value) & mult_vars) or C04b.has_mult(repo, unparse(inc.value))
                 chk.instance(P1, f'{cls.name}.{mname}: {unparse(inc)} (advances by multiplicity: {by_mult})')
                 if not by_mult:
-                    chk.violation(P1, mod.rel, f'{cls.name}.{mname}', unparse(inc),
+                    chk.violation(P1, mod.rel, f'{cls.name}.{mname}', f'parameter counter += {unparse(inc.value)}',
                                   f'{mname} counts one per node while the readers of {cls.name} (and its callers) count '
                                   f'(value)xn as n parameters', line=inc.lineno,
                                   witness='$THETA (1)x2 (3): removing THETA(3) indexes past the node list (internal '
